@@ -23,14 +23,14 @@ theorem simple_mem_schemaItems (k : ClassIR) (x : XType) (a : XAttr) (ha : a ∈
     inherited attribute), if the string the object holds for an attribute is outside the value space of the simple
     type the schema gives that attribute — pattern or enumeration — then `validate(recursive=True)` on the root
     fails: for every `re` engine meeting the specification, any fuel, any depth.  Excluded: strings holding a
-    Python-only space character (finding `C03:pattern-unicode-space`). -/
+    space character of Python's reading that is not an XSD space (with the repaired call shape: `\v`, `\f` only). -/
 theorem c03_facet_anywhere (E : Engine) (hE : EngineSpec E) (f : Nat) (o d : Obj) (hd : Desc o d) (k : ClassIR)
     (hk : k ∈ chain NmlVerif.Gen.Bindings.table NmlVerif.Gen.Bindings.table.length d.cls)
     (hkT : k ∈ NmlVerif.Gen.Bindings.table) (x : XType) (hx : findType NmlVerif.Gen.Xsd.types k.name = some x)
     (a : XAttr) (ha : a ∈ x.attrs) (t m : Nat) (ht : a.stype = some t) (hm : attrMember k a.name = some m)
     (s : String) (hs : attrVal d m = some s)
     (py : PyType) (xt : XsdType) (hp : findPy pyTypes t = some py) (hxt : findXsdT xsdTypes t = some xt)
-    (hstr : py.base = .str) (hplain : plainSpaces s.toList = true) (hbad : xsdValid xt (.str s.toList) = false) :
+    (hstr : py.base = .str) (hplain : plainFor patCheck.ascii s.toList = true) (hbad : xsdValid xt (.str s.toList) = false) :
     validateAll NmlVerif.Gen.Bindings.table (stPy E patCheck pyTypes) f o = false := by
   apply c03_today (stPy E patCheck pyTypes) f o d hd k hk hkT x hx (.simple t m)
     (simple_mem_schemaItems k x a ha t m ht hm)
